@@ -375,6 +375,12 @@ pub struct BinOp {
 }
 
 #[macro_export]
+macro_rules! inverse_of {
+    (*, $z:expr, $y:expr) => { $z / $y };
+    (/, $z:expr, $y:expr) => { $z * $y };
+}
+
+#[macro_export]
 macro_rules! bin_op {
     ($v:expr, $opname:expr, $op:tt, $ln:expr, $L:ty, $LU:ty, $rn:expr, $R:ty, $RU:ty, $resn:expr, $Res:ty) => {
         $v.push($crate::ops::BinOp {
@@ -391,12 +397,19 @@ macro_rules! bin_op {
                 let bb = $crate::ops::oc($crate::ops::guard(|| { let z: $Res = &x $op &y; show(z) }));
                 let sa = LinearScaledUnit::scale(&lus[ua]);
                 let sb = LinearScaledUnit::scale(&rus[ub]);
+                // the inverse operation applied to the ACTUAL result:  (x*y)/y  resp.  (x/y)*y  -> should give x back
+                let showl = |z: $L| json!({"a": enc(Quantity::amount(&z)), "u": format!("{:?}", Quantity::unit(&z))});
+                let back = $crate::ops::oc($crate::ops::guard(|| {
+                    let z: $Res = x $op y;
+                    let w: $L = $crate::inverse_of!($op, z, y);
+                    showl(w)
+                }));
                 let kref = $crate::ops::oc($crate::ops::guard(|| enc(sa $op sb)));
                 let rf = $crate::ops::oc($crate::ops::guard(|| enc(a $op b)));
                 json!({"op": $opname, "L": $ln, "R": $rn, "Res": $resn,
                        "x": {"a": enc(a), "u": format!("{:?}", lus[ua])},
                        "y": {"a": enc(b), "u": format!("{:?}", rus[ub])},
-                       "kref": kref, "ref": rf, "out": o, "bl": bl, "br": br, "bb": bb})
+                       "kref": kref, "ref": rf, "out": o, "bl": bl, "br": br, "bb": bb, "back": back})
             }),
         });
     };
